@@ -127,7 +127,7 @@ def main(tier):
             for a, b in zip(ser, ser[1:]):
                 if a["flag"] or b["flag"]:
                     continue
-                for name, kk, fl in (("dE", K["Etot"], FLOOR["Etot"]), ("dF", K["force"] * (5.0 if c["fam"] == "ksa" else 1.0), FLOOR["force"])):
+                for name, kk, fl in (("dE", K["Etot"], FLOOR["Etot"]), ("dF", K["force"], FLOOR["force"])):
                     bound = max(a[name] * (1.0 + 1.0e-6) + 1.0e-12, kk * b["eps"] + fl)       # no farther from the limit than before, or already inside the band of the new threshold
                     ladder_worst = max(ladder_worst, b[name] / bound)
                     if b[name] > bound:
